@@ -249,7 +249,7 @@ func cmdCheck(args []string) int {
 		}
 		vac = append(vac, r.Vacuity...)
 	}
-	cfg := SolverCfg{TimeoutS: 10, WorkDir: filepath.Join(verifDir, "work", o.id), Seed: seed, Parallel: 8}
+	cfg := SolverCfg{TimeoutS: 10, WorkDir: filepath.Join(verifDir, "work", o.id), Seed: seed, Parallel: 12}
 	if o.tier == "thorough" {
 		cfg.TimeoutS = 60
 		cfg.CrossCheck = true
@@ -263,12 +263,58 @@ func cmdCheck(args []string) int {
 	if !o.noWrite {
 		os.RemoveAll(filepath.Join(verifDir, "replays", o.id))
 	}
+	// cover guards: every hook assertion / postcondition / preserved invariant must be reached on at least one
+	// satisfiable path, otherwise a contradiction among the assumptions would discharge it vacuously
+	coverOf := map[string][]*Obligation{}
+	var coverNames []string
+	for _, ob0 := range obs {
+		ob := *ob0
+		// group by label: a postcondition needs one reachable return, not every return (dead error branches are fine)
+		if i := strings.LastIndex(ob.Name, "#"); i > 0 {
+			ob.Name = ob.Name[:i]
+		}
+		if o.tier == "thorough" {
+			if ob.Kind != "mon" && ob.Kind != "post" && ob.Kind != "inv-keep" && ob.Kind != "pre" {
+				continue
+			}
+			if len(coverOf[ob.Name]) >= 3 {
+				continue
+			}
+		} else {
+			if ob.Kind != "mon" && ob.Kind != "post" {
+				continue
+			}
+			if len(coverOf[ob.Name]) >= 2 {
+				continue
+			}
+		}
+		if _, ok := coverOf[ob.Name]; !ok {
+			coverNames = append(coverNames, ob.Name)
+		}
+		c := &Obligation{Name: "cover:" + ob.Name, Kind: "vacuity", Func: ob.Func, Assume: ob.Assume, Goal: True, Vacuity: true}
+		coverOf[ob.Name] = append(coverOf[ob.Name], c)
+		vac = append(vac, c)
+	}
 	all := append(append([]*Obligation{}, obs...), vac...)
 	prog.solveAll(all, cfg)
+	for _, n := range coverNames {
+		allUnsat := true
+		for _, c := range coverOf[n] {
+			if c.Verdict != "unsat" {
+				allUnsat = false
+			}
+		}
+		if allUnsat {
+			for _, c := range coverOf[n] {
+				c.Verdict = "unsat-reported"
+			}
+			toolErrs = append(toolErrs, "vacuity guard failed: no satisfiable path reaches "+n+" (assumptions contradictory)")
+		}
+	}
 	// vacuity guards
 	vacFail := 0
 	for _, v := range vac {
-		if v.Verdict == "unsat" {
+		if v.Verdict == "unsat" && !strings.HasPrefix(v.Name, "cover:") {
 			vacFail++
 			toolErrs = append(toolErrs, "vacuity guard failed (assumptions contradictory): "+v.Name)
 		}
